@@ -41,7 +41,8 @@ def char_st():
 
 def arg_st(invalid):
     good = st.one_of(char_st().map(lambda c: ['c', c]), char_st().map(lambda c: ['c', c]),
-                     st.sampled_from(sorted(cs.TOKENS)).map(lambda t: ['t', t]))
+                     st.sampled_from(sorted(cs.TOKENS)).map(lambda t: ['t', t]),
+                     st.one_of(st.sampled_from(sorted(META)), char_st()).map(lambda c: ['pc', c]))
     if not invalid:
         return good
     bad = st.one_of(st.sampled_from([['s', 'ab'], ['s', ''], ['s', '\\\\'], ['s', '\\a'], ['p', 'ab'], ['p', 'a'], ['bad', 'none'],
@@ -134,6 +135,8 @@ def check_expr(e, ctx):
         name = type(ex).__name__
         if unspec or (expect is not None and name in expect.names):
             return 'expected_exception'
+        if name == 'InvalidArgumentTypeException' and cs.has_plain_pregex_arg(e):
+            return 'expected_exception'      # "neither a string of length one nor a token instance", read strictly
         return violation('wrong_exception', e, f'raised {name}: {ex}; documented outcome: {expect or "a class"}', ctx)
     except BaseException as ex:  # noqa: BLE001
         if type(ex).__name__ == 'CaseTimeout':
@@ -174,7 +177,7 @@ def is_nontrivial(e):
         return True
     args = e[1] if e[0] in ('from', 'butfrom') else [e[1], e[2]]
     for a in args:
-        if a[0] == 't' or (a[0] == 'c' and len(a[1]) == 1 and (a[1] in META or ord(a[1]) > 127 or ord(a[1]) < 32)):
+        if a[0] in ('t', 'pc') or (a[0] == 'c' and len(a[1]) == 1 and (a[1] in META or ord(a[1]) > 127 or ord(a[1]) < 32)):
             return True
     return False
 
